@@ -264,6 +264,84 @@ def run(ctx, nbeh, level, seed, check_level=None, qnull=True):
     return res, stats, found
 
 
+def run_exhaustive(ctx, depth, seed=0):
+    """Every sequence of at most `depth` calls from every seeded database with an open session, over the full alphabet
+    (q nullable, single-object flushes): each one is executed from a fresh database and compared call by call."""
+    nodes, edges, inits, _ = tlc.dump_graph('PonyKeys', cfg(depth + 1, qnull=True), ctx.scratch, workers=8, tag='PonyKeysAll')
+    succ = {}
+    for s, d in edges:
+        if d not in succ.setdefault(s, []):
+            succ[s].append(d)
+    w = World(ctx.scratch.path('db', 'keys-all.sqlite'))
+    rng = random.Random(seed)
+    found = []
+    stats = {'sequences': 0, 'depth': depth, 'steps': 0}
+
+    def key_of(v):
+        e = nodes[v]['ev']
+        return (e['op'], e['k'], e['p'], e['q'])
+
+    def tr(root, path, last=None):
+        t = [{'init': {str(k): list(v) for k, v in rows_of(nodes[root]['db']).items()}, 'open': True}]
+        for v in path:
+            e = nodes[v]['ev']
+            t.append({'op': e['op'], 'k': e['k'], 'p': e['p'], 'q': e['q'], 'out': e['out'], 'ret': sorted(norm_ret(e['ret']))})
+        if last is not None:
+            t[-1]['out'], t[-1]['ret'] = last
+        return t
+    stack = [(i, i, []) for i in inits if nodes[i]['sess'] == 'open']
+    while stack:
+        u, root, path = stack.pop()
+        if len(path) < depth:
+            for v in succ.get(u, ()):
+                stack.append((v, root, path + [v]))
+        if not path:
+            continue
+        stats['sequences'] += 1
+        w.reset(rows_of(nodes[root]['db']))
+        st = {}
+        try:
+            execute(w, st, {'op': 'Begin', 'k': 0, 'p': 0, 'q': 0}, rng)
+            cur = root
+            for i, v in enumerate(path):
+                ev = nodes[v]['ev']
+                try:
+                    out, ret = execute(w, st, ev, rng)
+                except MachineryError:
+                    raise
+                except Exception as exc:
+                    import traceback
+                    found.append(('crash', 'unexpected %s inside pony during %s%r: %s\n%s' % (
+                        type(exc).__name__, ev['op'], key_of(v)[1:], exc, traceback.format_exc()[-800:]), tr(root, path[:i + 1], ('crash:' + type(exc).__name__, []))))
+                    break
+                stats['steps'] += 1
+                if out != ev['out'] or norm_ret(ev['ret']) != set(ret):
+                    # the specification may allow several outcomes of this call (leaving a session whose flush failed)
+                    alts = [x for x in succ.get(cur, ()) if key_of(x) == key_of(v) and nodes[x]['ev']['out'] == out
+                            and norm_ret(nodes[x]['ev']['ret']) == set(ret)]
+                    if not alts:
+                        exp = sorted(set((nodes[x]['ev']['out'], tuple(sorted(norm_ret(nodes[x]['ev']['ret'])))) for x in succ.get(cur, ())
+                                         if key_of(x) == key_of(v)))
+                        cat = 'order' if ev['op'] in ('Flush', 'Commit', 'End') and any(e[0] == 'ok' for e in exp) else 'keys'
+                        found.append((cat, '%s%r: pony -> %s %r; the specification says %r' % (ev['op'], key_of(v)[1:], out, sorted(ret), exp),
+                                      tr(root, path[:i + 1], (out, sorted(ret)))))
+                    break          # (an allowed alternative leads elsewhere: that sequence is enumerated on its own)
+                if ev['op'] in ('Commit', 'End', 'EndExc', 'Rollback'):
+                    got, problems = w.dump()
+                    want = rows_of(nodes[v]['db'])
+                    if problems or got != want:
+                        found.append(('keys', 'database after %s(%s) is %r %s, the specification says %r' % (
+                            ev['op'], out, got, '; '.join(problems), want), tr(root, path[:i + 1])))
+                        break
+                cur = v
+        finally:
+            cleanup(st)
+        if len(found) >= 20:
+            break
+    w.db.disconnect()
+    return stats, found
+
+
 def report(ctx, prop, res, stats, found):
     """C14 owns the key disagreements, C16 the flushes that should have succeeded (save order); crashes go to both."""
     mine = {'C14': ('keys', 'crash'), 'C16': ('order', 'crash')}[prop]
